@@ -269,12 +269,12 @@ theorem kind_direct {t : Table} (hwf : WF t) : ∀ (d c : Nat) (tvs : List Nat),
     intro c tvs h
     simp only [kindOf] at h
     split at h
-    · rename_i tvs' hg hp
+    · rename_i ps tvs' hg
       split at h
       · rename_i hc
         injection h with h; subst h
         simp only [Bool.and_eq_true, decide_eq_true_eq] at hc
-        refine ⟨hc.2, basesOf t c, ?_, ?_⟩
+        refine ⟨hc.1.2, basesOf t c, ?_, ?_⟩
         · simp [genericBases_eq, hg]
         · intro d' _
           apply lookup_own
@@ -589,6 +589,35 @@ theorem type_var_multiple {t : Table} (hwf : WF t) (d c : Nat) (orig : Option (L
     typeVar (getTypes t d c orig) = .raised .multiple "AssertionError" := by
   rw [type_vars_exact hwf d c orig _ h]
   simp [typeVar, typeVarLenOk, hn]
+
+/-- **a directly generic class with extra parametrised mixin bases** — `class Box(Labelled[str], Generic[T], GenericMixin)`,
+    `class Box(Generic[T1, T2], GenericMixin, Sequence[T1], Labelled[bytes])`, … — stated on the declarations themselves: the
+    class lists exactly one `Generic[T1..Tn]` (distinct variables) at ANY position among its bases, its plain bases are
+    non-generic, and its other subscripted bases — any number of them, before or after `Generic[…]`, with any arguments — are
+    classes that know nothing about `GenericMixin`.  Then `Cls[X1..Xn]()` reports exactly `{Ti: Xi}` (never the type arguments
+    of a mixin), and the unparametrised `Cls()` raises AssertionError instead of returning data. -/
+theorem direct_with_parametrised_mixins {t : Table} (hwf : WF t) (d c : Nat) (tvs : List Nat) (args : List TArg)
+    (hg : (basesOf t c).filterMap genericOf = [tvs]) (hnd : tvs.Nodup)
+    (hpl : ((basesOf t c).filterMap plainOf).all (nonGeneric t d) = true)
+    (hpar : ((basesOf t c).filterMap paramOf).all (fun p => foreign t d p.1) = true)
+    (hlen : args.length = tvs.length) :
+    getTypes t (d + 1) c (some args) = .ok (pairUp tvs args) ∧
+    getTypes t (d + 1) c none = .raised .unparam "AssertionError" := by
+  have hk : kindOf t (d + 1) c = .direct tvs := by simp [kindOf, hg, hnd, hpl, hpar]
+  refine ⟨type_vars_exact hwf (d + 1) c (some args) _ ?_, unparametrised_asserts hwf (d + 1) c tvs hk⟩
+  simp [expectedOutcome, hk, hlen]
+
+/-- … and a subclass that binds all parameters of such a class — `class IntBox(Box[int])`, with plain non-generic mixins
+    around it — reports exactly `{Ti: Xi}` of that binding, instantiated as `IntBox()` -/
+theorem binding_subclass_of_direct_with_parametrised_mixins {t : Table} (hwf : WF t) (d c b : Nat) (tvs : List Nat)
+    (args : List TArg) (orig : Option (List TArg))
+    (hb : kindOf t d b = .direct tvs)
+    (hg : (basesOf t c).filterMap genericOf = []) (hp : (basesOf t c).filterMap paramOf = [(b, args)])
+    (hpl : ((basesOf t c).filterMap plainOf).all (nonGeneric t d) = true)
+    (hlen : args.length = tvs.length) (hty : args.all TArg.isTy = true) :
+    getTypes t (d + 1) c orig = .ok (pairUp tvs args) := by
+  apply type_vars_exact hwf
+  simp [expectedOutcome, kindOf, hg, hp, hb, hpl, hlen, hty]
 
 /-! ## create_decorator -/
 
@@ -1401,6 +1430,45 @@ example : lin exT 10 8 = [8, 7, 6, 5, 4, 1, 0] := by decide
 def exPartial : Table := libTable ++ [⟨[.generic [1, 2], .plain 1], []⟩, ⟨[.param 4 [.tv 1, .ty 7]], []⟩]
 example : expectedOutcome exPartial 10 5 (some [.ty 3]) = .unsupported := by decide
 example : getTypes exPartial 10 5 (some [.ty 3]) = .ok [(.tv 1, .tv 1), (.tv 2, .ty 7)] := by decide
+
+/-- `class Labelled(Generic[T4])` (knows nothing about GenericMixin), `class Seq` (subscriptable, like `list`),
+    `class Box(Labelled[X1], Generic[T1], GenericMixin)`, `class Pair(Generic[T1, T2], GenericMixin, Seq[T1], Labelled[X4])`,
+    `class IntBox(Box[X0])`, `class Same(Labelled[X1], Generic[T4], GenericMixin)` (the mixin's own variable re-used) -/
+def exBox : Table := libTable ++ [
+  ⟨[.generic [4]], []⟩,                                                       -- 4: Labelled
+  ⟨[], []⟩,                                                                   -- 5: Seq
+  ⟨[.param 4 [.ty 1], .generic [1], .plain 1], []⟩,                           -- 6: Box
+  ⟨[.generic [1, 2], .plain 1, .param 5 [.tv 1], .param 4 [.ty 4]], []⟩,      -- 7: Pair
+  ⟨[.param 6 [.ty 0]], []⟩,                                                   -- 8: IntBox
+  ⟨[.param 4 [.ty 1], .generic [4], .plain 1], []⟩,                           -- 9: Same
+  ⟨[.param 4 [.ty 1], .param 6 [.ty 0]], []⟩,                                 -- 10: class Odd(Labelled[X1], Box[X0])
+  ⟨[.param 6 [.ty 0], .param 4 [.ty 1]], []⟩ ]                                -- 11: class Odd2(Box[X0], Labelled[X1])
+
+example : wfB exBox = true := by decide
+example : kindOf exBox 12 6 = .direct [1] ∧ kindOf exBox 12 7 = .direct [1, 2] ∧ kindOf exBox 12 9 = .direct [4] := by decide
+example : expectedOutcome exBox 12 6 (some [.ty 0]) = .ok [(.tv 1, .ty 0)] := by decide
+example : expectedOutcome exBox 12 6 none = .mustAssert := by decide
+example : expectedOutcome exBox 12 7 (some [.ty 0, .ty 6]) = .ok [(.tv 1, .ty 0), (.tv 2, .ty 6)] := by decide
+example : expectedOutcome exBox 12 8 none = .ok [(.tv 1, .ty 0)] := by decide
+example : expectedOutcome exBox 12 9 (some [.ty 0]) = .ok [(.tv 4, .ty 0)] := by decide
+-- the hypotheses of `direct_with_parametrised_mixins` are met by Box and by Pair
+example : getTypes exBox 12 6 (some [.ty 0]) = .ok [(.tv 1, .ty 0)] ∧ getTypes exBox 12 6 none = .raised .unparam "AssertionError" :=
+  direct_with_parametrised_mixins (WF_of_wfB (by decide)) 11 6 [1] [.ty 0] (by decide) (by decide) (by decide) (by decide) rfl
+example : getTypes exBox 12 7 (some [.ty 0, .ty 6]) = .ok [(.tv 1, .ty 0), (.tv 2, .ty 6)] ∧
+    getTypes exBox 12 7 none = .raised .unparam "AssertionError" :=
+  direct_with_parametrised_mixins (WF_of_wfB (by decide)) 11 7 [1, 2] [.ty 0, .ty 6] (by decide) (by decide) (by decide) (by decide) rfl
+example : getTypes exBox 12 8 none = .ok [(.tv 1, .ty 0)] :=
+  binding_subclass_of_direct_with_parametrised_mixins (WF_of_wfB (by decide)) 11 8 6 [1] [.ty 0] none (by decide) (by decide)
+    (by decide) (by decide) rfl (by decide)
+example : lin exBox 12 6 = [6, 4, 0, 1] ∧ lin exBox 12 7 = [7, 1, 5, 4, 0] := by decide
+
+/-- outside the claimed shapes (reported only): a binding subclass with a SECOND subscripted base.  "Their generic base" is not
+    defined for it and the specification claims nothing; the code takes the first subscripted base whose origin is generic —
+    `class Odd(Labelled[X1], Box[X0])` answers with the type argument of the mixin, `{T4: X1}`, while
+    `class Odd2(Box[X0], Labelled[X1])` answers `{T1: X0}` -/
+theorem binding_subclass_second_subscripted_base_first_wins :
+    expectedOutcome exBox 12 10 none = .unsupported ∧ getTypes exBox 12 10 none = .ok [(.tv 4, .ty 1)] ∧
+    expectedOutcome exBox 12 11 none = .unsupported ∧ getTypes exBox 12 11 none = .ok [(.tv 1, .ty 0)] := by decide
 
 def exD : Table := libTable ++ [
   ⟨[.param 3 [.ty 50]],                                   -- 4: class Base(WithDecoratedMethods[D])
